@@ -153,7 +153,7 @@ def run_case(case, work, rec):
     counter = 0
     for depth, kind in enumerate(case["history"], 1):
         counter += 1
-        out = os.path.join(work, f"step{depth}")
+        out = workload.out_path(work, f"step{depth}", depth, rec)
         names = exp.names
         finest = len(exp.levels) - 1
         pools.CTL.reset(mode="inproc" if depth % 3 else "fork", seed=rng.randrange(10 ** 6))
